@@ -590,6 +590,13 @@ func parseTrace(rest string) (*TraceRule, error) {
 			return nil, err
 		}
 		tr.A = strings.Join(f, " ")
+	case "holds":
+		// holds EXPR : a condition over the final state of the path (may use evcount / evres)
+		e, err := ParseExpr(strings.Join(f, " "))
+		if err != nil {
+			return nil, err
+		}
+		tr.Cond = e
 	case "each":
 		// each EVENT satisfies EXPR   ($recv, $arg0.., $res0.. denote the event's operands)
 		idx := -1
